@@ -140,11 +140,11 @@ def run(chk):
         "hand models of stream.c (coq/Emu/StreamDefs.v), emu_ev.c and model_event (coq/Emu/EmuEvDefs.v), metadata gates (coq/Emu/LoaderMetaDefs.v), validated each run against ovniemu and the in-process harness",
         "independent format specification coq/Emu/LoaderSpec.v (proved equivalent to acceptance by the model) and its Python twin lib/checks/loader_common.py:validate_obs used to classify corrupted traces",
         "extraction (ExtrOcamlBasic only) + OCaml 4.13 + oracle/loader_drv.ml",
-        "parson is an oracle (metadata theorems are about an abstract record of look-up results); handlers are a parameter of the model: the classes 'unknown event' and 'wrong payload size' are covered by the campaign only",
+        "parson is an oracle (metadata theorems are about an abstract record of look-up results); for the stream-layer theorems the handlers are a parameter; the classes 'unknown event' and 'wrong payload size' are theorems about the emulator-core model's dispatch (tables dumped from the source by translate/units/tables.py + the hand-written switches of Emu/DecodeDefs.v, validated against ovniemu by C18's per-code probes and this campaign)",
     ]
     chk.assumptions = ["stream->clock_offset = 0", "a stream file is smaller than 2^63 bytes",
                        "theorems are about the repaired stream_step and emu_ev (patches/fix-c19-stream-bounds.diff, patches/fix-c12-is-jumbo.diff)"]
-    broken = common.translate(["loader", "loader_step"])
+    broken = common.translate(["loader", "loader_step", "tables"])
     fixed_tree = not any("unit=loader_step" in b for b in broken)
     if broken:
         chk.proof_broken = {"kind": "translator", "messages": broken}
